@@ -2,7 +2,6 @@ package graphql
 
 import (
 	"container/list"
-	"hash/fnv"
 	"strconv"
 	"sync"
 	"sync/atomic"
@@ -155,14 +154,14 @@ func (c *PlanCache) Get(schema *Schema, query, operationName string) PlanResult 
 	}
 	if normKey == "" {
 		// Normalization isn't applicable (op-not-found, ambiguous
-		// multi-op without operationName). Fingerprint the raw query
+		// multi-op without operationName). Key on the raw query text
 		// so unrelated docs don't collide on the empty key — otherwise
 		// any cached parse/validate/plan error from the first such
 		// query would be returned for every subsequent malformed
-		// query under the same operationName.
-		h := fnv.New64a()
-		_, _ = h.Write([]byte(query))
-		normKey = "raw:" + strconv.FormatUint(h.Sum64(), 16)
+		// query under the same operationName. (The text itself, not a
+		// hash of it: a hash collision would hand one request the
+		// cached result of another.)
+		normKey = "raw:" + query
 	}
 	cacheKey := operationName + "\x00" + normKey
 	if pr, ok := c.lookup(schema, cacheKey); ok {
